@@ -36,7 +36,7 @@ func newAPI() *webrtc.API {
 		PayloadType:        111,
 	}, webrtc.RTPCodecTypeAudio)
 	s := webrtc.SettingEngine{}
-	s.SetICEMulticastDNSMode(0) // disabled
+	s.SetICEMulticastDNSMode(0)         // disabled
 	s.DisableSRTPReplayProtection(true) // retransmissions repeat a sequence number: the harness wants to see them
 	return webrtc.NewAPI(webrtc.WithMediaEngine(m), webrtc.WithSettingEngine(s), webrtc.WithInterceptorRegistry(&interceptor.Registry{}))
 }
@@ -201,6 +201,9 @@ type Peer struct {
 	C      *vclient.Client
 	api    *webrtc.API
 	Answer bool // answer the server's offers (default true)
+
+	holdOffers bool
+	held       []vclient.Msg
 
 	mu    sync.Mutex
 	ups   map[string]*Up
@@ -442,7 +445,6 @@ func (p *Peer) gotOffer(m vclient.Msg) {
 	p.C.Send(vclient.Msg{"type": "answer", "id": id, "sdp": pc.LocalDescription().SDP})
 }
 
-
 // OfferSDP builds a sendonly audio+video offer with all candidates gathered (for WHIP).
 // The caller owns the returned PeerConnection.
 func OfferSDP() (string, *webrtc.PeerConnection, error) {
@@ -542,10 +544,30 @@ func (p *Peer) Publish(id, label string, tracks []TrackSpec, replace string) (*U
 	if replace != "" {
 		msg["replace"] = replace
 	}
+	if p.holdOffers {
+		p.held = append(p.held, msg)
+		return up, nil
+	}
 	if err := p.C.Send(msg); err != nil {
 		return nil, err
 	}
 	return up, nil
+}
+
+// HoldOffers makes Publish prepare everything (PeerConnection, gathered offer) but keep the
+// signalling message back; SendHeld then sends the messages back to back, so that they sit
+// in the server's read queue together.
+func (p *Peer) HoldOffers(on bool) { p.holdOffers = on }
+
+func (p *Peer) SendHeld() error {
+	h := p.held
+	p.held = nil
+	for _, m := range h {
+		if err := p.C.Send(m); err != nil {
+			return err
+		}
+	}
+	return nil
 }
 
 // Wait blocks until the stream is answered+connected, aborted, or the watchdog fires.
